@@ -34,6 +34,10 @@ static inline uint64_t verif_u64(void) { uint64_t verif_tape_v = nondet_u64(); r
 #define VCANARY(tag) __CPROVER_assert(0, "canary: " tag)
 #endif
 
+/* shadow copy for non-atomic read-modify-write statements (tools/weave.py); defined in verif_point.inc */
+struct verif_rmw_s { unsigned char buf[8] __attribute__((aligned(8))); void* addr; unsigned long size; };
+extern struct verif_rmw_s verif_rmw;
+
 static inline uint32_t verif_u32(void) { return (uint32_t)(verif_u64() & 0xFFFFFFFFull); }
 static inline int verif_bool(void) { return (int)(verif_u64() & 1); }
 /* choose k in [0, n) */
